@@ -44,12 +44,15 @@ fn apply(o: Orientation, s: Step) -> Orientation {
 
 /// panel content (physical cells) shown by a display with orientation `o` after drawing image `img`
 /// (row-major colours over the logical size of `o`)
-fn show(o: Orient, img: &dyn Fn(u32, u32) -> u32) -> Result<Vec<(u32, u32, u32)>, String> {
+fn show(o: Orient, img: &dyn Fn(u32, u32) -> u32, geom: u8) -> Result<Vec<(u32, u32, u32)>, String> {
     let mut cfg = Config::full(ModelId::E7x5, Transport::Rec8);
     cfg.w = 4;
     cfg.h = 3;
-    cfg.ox = 2;
-    cfg.oy = 1;
+    // three placements of the 4x3 window in the 7x5 framebuffer: off-centre, top-left corner
+    // (offset (0,0) with a window smaller than the framebuffer) and bottom-right corner
+    let (ox, oy) = [(2, 1), (0, 0), (3, 2)][geom as usize % 3];
+    cfg.ox = ox;
+    cfg.oy = oy;
     cfg.orient = o;
     let mut s = Session::start(&cfg)?;
     let (lw, lh) = cfg.logical_size(o);
@@ -71,12 +74,12 @@ fn logical(o: Orient) -> (u32, u32) {
 }
 
 /// geometric meaning of one step: display(o.step) drawing I  ==  display(o) drawing transform(I)
-fn check_step(o: Orient, s: Step) -> Result<Orient, String> {
+fn check_step(o: Orient, s: Step, geom: u8) -> Result<Orient, String> {
     let o2 = Orient::from_mipidsi(apply(o.to_mipidsi(), s));
     let (w2, h2) = logical(o2);
     // image over the logical space of o2: unique colour per pixel
     let img = move |x: u32, y: u32| 1 + y * 16 + x;
-    let shown2 = show(o2, &img)?;
+    let shown2 = show(o2, &img, geom)?;
     // the same picture pre-transformed, drawn under o
     let (w1, h1) = logical(o);
     let pre: Box<dyn Fn(u32, u32) -> u32> = match s {
@@ -107,7 +110,7 @@ fn check_step(o: Orient, s: Step) -> Result<Orient, String> {
     if expect_dims != (w1, h1) {
         return Err(format!("{:?} then {:?} gives {:?}, whose logical size {:?} does not match the transformed image", o, s, o2, (w2, h2)));
     }
-    let shown1 = show(o, &*pre)?;
+    let shown1 = show(o, &*pre, geom)?;
     if shown1 != shown2 {
         return Err(format!(
             "{:?} extended by {:?} gives {:?}: it does not show the picture that {:?} shows for the correspondingly pre-transformed image",
@@ -119,8 +122,9 @@ fn check_step(o: Orient, s: Step) -> Result<Orient, String> {
 
 pub fn check(c: &WordCase, info: &mut CaseInfo) -> Result<(), String> {
     let mut o = c.start;
-    for s in &c.word {
-        o = check_step(o, *s)?;
+    let geom = (c.word.len() + c.start.index()) as u8;
+    for (i, s) in c.word.iter().enumerate() {
+        o = check_step(o, *s, geom.wrapping_add(i as u8))?;
     }
     // consequences, directly on the API
     let m = c.start.to_mipidsi();
@@ -242,7 +246,7 @@ pub fn run(ctx: &Ctx) -> Report {
     let mut rep = Report::new("C15", "exploration");
     rep.assumptions = vec![
         "rotation is clockwise; flip_horizontal mirrors the picture left-right, flip_vertical top-bottom (as the property states)".into(),
-        "geometric meaning observed through a real Display (4x3 window at (2,1) of a 7x5 framebuffer, unique colour per pixel) and the Panel".into(),
+        "geometric meaning observed through a real Display (4x3 window at (2,1), (0,0) or (3,2) of a 7x5 framebuffer, unique colour per pixel) and the Panel".into(),
     ];
     let max = if ctx.tier == Tier::Thorough { 5 } else { 4 };
     let mut sec = Section::new(
